@@ -194,7 +194,7 @@ def execute(ctx, case):
                     bucket = "offered-below-min:" + ("prefer<min" if pf < mn else "prefer>=min")
                 elif size > mx:
                     bucket = "offered-above-max"
-                elif size < pf or (want >= pf and size > want):
+                elif want >= pf:
                     bucket = "not-smallest-at-least-preferred"
                 else:
                     bucket = "not-largest-in-range"
